@@ -246,6 +246,14 @@ pub fn run(args: &Args, rep: &mut Report) {
                 continue;
             }
         };
+        let mut img = img;
+        if args.flag("statusbits") && rng.chance(1, 2) {
+            // mount-time status byte presets (bits 0/1 known, others uninterpreted)
+            if let Ok(g) = crate::fatck::geo_of(&img) {
+                let v = *rng.pick(&[1u8, 2, 3, 0x80, 0x84, 0x41, 0xFE]);
+                img.set_u8(g.status_off, v);
+            }
+        }
         let mut scfg = SessCfg::all(unicode_build());
         scfg.props = props.clone();
         scfg.start_day = 30 + rng.below(40_000) as u32;
